@@ -1,0 +1,27 @@
+//go:build verif
+
+// Contracts for the verification machinery in /verif (comment-only; compiled only with -tags verif).
+package persistent
+
+// ---- C51: the persistent ordered set answers lookups like its model, the union of the item sets along its
+// parent chain. Sets are objects of a read-only linked heap: a set is a reference (0 = nil), its fields are
+// functions of the reference, and the chain may have any length (no bound); the model is the recursive predicate
+// osmember. (On a cyclic chain the real code does not terminate; partial correctness.) The item map of each level is
+// seen through orderedmap's abstract view omhas / omnonempty.
+//@ ufun osparent(Int) Int
+//@ ufun ositems(Int) Int
+//@ heapobj OrderedSet Parent=osparent items=ositems
+//@ recfun osmember(s int, x int) bool = s != 0 && ((ositems(s) != 0 && omhas(ositems(s), x)) || osmember(osparent(s), x))
+//@ recfun osnonempty(s int) bool = s != 0 && ((ositems(s) != 0 && omnonempty(ositems(s))) || osnonempty(osparent(s)))
+
+//@ func (*OrderedSet[T]).Contains
+//@   props C51
+//@   nofail
+//@   loop 1 invariant iff(osmember(s, item), osmember(currentS, item)) && !present
+//@   ensures[C51] iff(result, osmember(s, item))
+
+//@ func (*OrderedSet[T]).IsEmpty
+//@   props C51
+//@   nofail
+//@   loop 1 invariant iff(osnonempty(s), osnonempty(currentS))
+//@   ensures[C51] iff(result, !osnonempty(s))
